@@ -136,6 +136,26 @@ def oracle(ctx, deep):
     # every returned character password must be the first satisfying candidate its stream scripts, among at most MaxTrials:
     # that is the process whose outcome probabilities (1/count each, conditionally) Entropy() accounts for; a password produced
     # any other way (from a stream on which every permitted attempt fails, say) carries probability mass on top of it
+    # a returned password has positive probability: an entropy of +Inf (2^-E = 0) or NaN overstates whatever the recipe is
+    for meta, a, b in getattr(ctx, "gen_results", []):
+        d = chargen.parse_password(a) if a else None
+        if d and d["outcome"] == "ok" and d.get("ent", "").startswith("F:"):
+            E = f32_from_bits(d["ent"][2:])
+            if math.isnan(E) or E == float("inf"):
+                ctx.violations.append({"finding_key": "C06-char", "recipe": meta["recipe"], "line": chargen.chargen_line(meta["_recipe"], meta["budget"], meta["_words"]),
+                                       "observed": a[:200], "what": "a password was returned with Entropy = %r: its probability is positive, 2^-Entropy is not" % E})
+                break
+    for c, a, b in getattr(ctx, "wl_results", []):
+        if not a:
+            continue
+        d = chargen.parse_password(wlgen.parse_pre(a)[2])
+        if d and d["outcome"] == "ok" and d.get("ent", "").startswith("F:"):
+            E = f32_from_bits(d["ent"][2:])
+            if math.isnan(E) or E == float("inf"):
+                ctx.violations.append({"finding_key": "C06-wordlist", "case": c["meta"], "observed": a[:200],
+                                       "line": wlgen.wlgen_line(c["list"], c["length"], c["sep"], c["cap"], c["budget"], c["words"], shadow=c.get("shadow")),
+                                       "what": "a wordlist password was returned with Entropy = %r: its probability is positive, 2^-Entropy is not" % E})
+                break
     for meta, a, b in getattr(ctx, "gen_results", []):
         msg = chargen.process_verdict(meta, a) if a else None
         if msg:
